@@ -111,9 +111,12 @@ class MachineTracer:
                 else:
                     sd = "L" if arg is m.left_disparity else ("R" if arg is m.right_disparity else "?")
                 li = m.left_img
-                tracer.events.append({"ev": "RunCb", "name": tracer.cur_step, "kind": kind, "side": sd,
-                                      "rows": int(li.sizes["row"]), "cols": int(li.sizes["col"]),
-                                      "cscale": m.current_scale})
+                evt = {"ev": "RunCb", "name": tracer.cur_step, "kind": kind, "side": sd,
+                       "rows": int(li.sizes["row"]), "cols": int(li.sizes["col"]), "cscale": m.current_scale}
+                if kind == "matching_cost" and len(args) > 2 and hasattr(args[2], "coords") and "disp" in args[2].coords:
+                    evt["dlo"] = float(args[2].coords["disp"].data[0])
+                    evt["dhi"] = float(args[2].coords["disp"].data[-1])
+                tracer.events.append(evt)
             return orig(obj, *args, **kw)
         return wrapper
 
